@@ -46,6 +46,27 @@ template <class X> void mm_run(Ctx& c, uint64_t idx) {
     { QList* l = nullptr; int cnt = 0; int rc; { LibScope ls; rc = X::DissectQueryMallocExMm(&l, &cnt, qs.data(), qs.data() + qs.size(), URI_TRUE, URI_BR_DONT_TOUCH, &inc); } verdict("DissectQueryMallocExMm", rc); }
     { QList* l = nullptr; int cnt = 0; int rc0; { LibScope ls; rc0 = X::DissectQueryMallocExMm(&l, &cnt, qs.data(), qs.data() + qs.size(), URI_TRUE, URI_BR_DONT_TOUCH, good.mgr()); } if (rc0 == URI_SUCCESS) { int rc; { LibScope ls; rc = X::FreeQueryListMm(l, &inc); } verdict("FreeQueryListMm", rc); LibScope ls; X::FreeQueryListMm(l, good.mgr()); } }
     { int rc; { LibScope ls; rc = uriTestMemoryManager(&inc); } verdict("uriTestMemoryManager", rc); }
+    // NULL arguments: the call is refused; an output structure the caller did not initialise (filled with 0xEE here) must not be taken
+    // apart by the cleanup of the refused call -- nothing may reach the manager's free that it did not hand out
+    {
+        Uri d; int rc;
+        memset(&d, 0xEE, sizeof d); { LibScope ls; rc = X::AddBaseUriExMm(&d, nullptr, &B.u, URI_RESOLVE_STRICTLY, good.mgr()); } c.evaluations++; if (rc == URI_SUCCESS) c.violation("C13", fmt("mm/%s/null-argument-accepted", X::tag()), "AddBaseUriExMm(relSource=NULL)");
+        memset(&d, 0xEE, sizeof d); { LibScope ls; rc = X::AddBaseUriExMm(&d, &A.u, nullptr, URI_RESOLVE_STRICTLY, good.mgr()); } c.evaluations++; if (rc == URI_SUCCESS) c.violation("C13", fmt("mm/%s/null-argument-accepted", X::tag()), "AddBaseUriExMm(absBase=NULL)");
+        memset(&d, 0xEE, sizeof d); { LibScope ls; rc = X::RemoveBaseUriMm(&d, nullptr, &B.u, URI_FALSE, good.mgr()); } c.evaluations++; if (rc == URI_SUCCESS) c.violation("C13", fmt("mm/%s/null-argument-accepted", X::tag()), "RemoveBaseUriMm(absSource=NULL)");
+        memset(&d, 0xEE, sizeof d); { LibScope ls; rc = X::RemoveBaseUriMm(&d, &B.u, nullptr, URI_TRUE, good.mgr()); } c.evaluations++; if (rc == URI_SUCCESS) c.violation("C13", fmt("mm/%s/null-argument-accepted", X::tag()), "RemoveBaseUriMm(absBase=NULL)");
+        memset(&d, 0xEE, sizeof d); const Char* ep = nullptr; { LibScope ls; rc = X::ParseSingleUriExMm(&d, nullptr, nullptr, &ep, good.mgr()); } c.evaluations++; if (rc == URI_SUCCESS) c.violation("C13", fmt("mm/%s/null-argument-accepted", X::tag()), "ParseSingleUriExMm(first=NULL)");
+        { QList* l = (QList*)(uintptr_t)0xEEEEEEEEEEEEEEEEull; int cnt = 7; { LibScope ls; rc = X::DissectQueryMallocExMm(&l, &cnt, nullptr, nullptr, URI_TRUE, URI_BR_DONT_TOUCH, good.mgr()); } c.evaluations++; if (rc == URI_SUCCESS) c.violation("C13", fmt("mm/%s/null-argument-accepted", X::tag()), "DissectQueryMallocExMm(first=NULL)"); }
+        { Char* out = (Char*)(uintptr_t)0xEEEEEEEEEEEEEEEEull; { LibScope ls; rc = X::ComposeQueryMallocExMm(&out, nullptr, URI_TRUE, URI_TRUE, good.mgr()); } c.evaluations++; if (rc == URI_SUCCESS) c.violation("C13", fmt("mm/%s/null-argument-accepted", X::tag()), "ComposeQueryMallocExMm(list=NULL)"); }
+        if (good.bad_free) { c.violation("C13", fmt("mm/%s/refused-call-released-something-never-handed-out", X::tag()), good.bad_free_note); good.bad_free = 0; good.bad_free_note.clear(); }
+    }
+    // a completion that is refused (backend without malloc or without free) leaves an all-zero manager all-zero: it is still incomplete
+    { Ledger be; UriMemoryManager raw, cm; memset(&raw, 0, sizeof raw); memset(&cm, 0, sizeof cm); if (idx & 1) raw.malloc = be.mm.malloc; else raw.free = be.mm.free; raw.userData = &be;
+      int rcc = uriCompleteMemoryManager(&cm, &raw); c.evaluations++;
+      if (rcc != URI_ERROR_MEMORY_MANAGER_INCOMPLETE) c.violation("C13", "mm/incomplete-backend-accepted", fmt("rc=%d", rcc));
+      else { Uri u; memset(&u, 0, sizeof u); const Char* ep; int rc; { LibScope ls; rc = X::ParseSingleUriExMm(&u, w.data(), w.data() + w.size(), &ep, &cm); } c.evaluations++;
+             if (rc != URI_ERROR_MEMORY_MANAGER_INCOMPLETE) c.violation("C13", fmt("mm/%s/manager-left-by-refused-completion-not-rejected", X::tag()), fmt("rc=%d", rc));
+             int rt; { LibScope ls; rt = uriTestMemoryManager(&cm); } if (rt != URI_ERROR_MEMORY_MANAGER_INCOMPLETE) c.violation("C13", "mm/manager-left-by-refused-completion-not-rejected", fmt("uriTestMemoryManager rc=%d", rt)); }
+      be.release_all(); }
     // the same question where the call would have nothing to allocate or release anyway: the manager is still rejected first
     {
         UriBox<X> O; if (O.parse(s, &good) == URI_SUCCESS && O.make_owner() == URI_SUCCESS) {
@@ -207,6 +228,13 @@ template <class X> void ip4_run(Ctx& c, const Str& s) {
     if (!valid && rc != URI_ERROR_SYNTAX) c.violation("C02", fmt("ip4/%s/wrong-error-code", X::tag()), what + fmt(" rc=%d", rc));
     if (valid && memcmp(out + 4, want, 4) != 0) c.violation("C02", fmt("ip4/%s/octets-wrong", X::tag()), what + fmt(" got %u.%u.%u.%u", out[4], out[5], out[6], out[7]));
     c.count(valid ? "ip4_valid" : "ip4_invalid");
+    // char API: the four octets written over the text they are read from (an in-place conversion; each octet is stored after its text was read)
+    if (sizeof(Char) == 1 && s.size() >= 4 && (c.case_index % 3) == 0) {
+        std::vector<char> tmp(s.begin(), s.end()); tmp.resize(s.size() + 8, 'q');
+        int r2; { LibScope ls; r2 = X::ParseIpFourAddress((unsigned char*)tmp.data(), (const Char*)tmp.data(), (const Char*)tmp.data() + s.size()); }
+        c.evaluations++;
+        if (r2 != rc || (valid && memcmp(tmp.data(), want, 4) != 0)) c.violation("C02", fmt("ip4/%s/in-place-output-differs", X::tag()), what + fmt(" separate rc=%d, in place rc=%d octets %u.%u.%u.%u", rc, r2, (unsigned char)tmp[0], (unsigned char)tmp[1], (unsigned char)tmp[2], (unsigned char)tmp[3]));
+    }
 }
 static void ip4_case(Ctx& c, uint64_t idx) {
     Str s; uint64_t ne = ip4_nenum(c);
